@@ -382,6 +382,11 @@ Fixpoint run (ap : bool) (l : list item) (st : pstate) : pres pstate :=
   end.
 
 Definition parse_items (ap : bool) (l : list item) : pres pstate := run ap l ps_empty.
+(* a file without any section (no imports, no items: an empty YAML document, or comments only): yaml.load returns
+   None, which parse_text / parse_options_text read as an empty mapping (since bebb1a6) - the file defines nothing,
+   exactly what closure_items gives for it *)
+Definition empty_file (f : file) : bool :=
+  match f_imports f, f_items f with [], [] => true | _, _ => false end.
 Definition parse_closure (ap : bool) (c : closure) : pres pstate :=
   match closure_items c with Some l => parse_items ap l | None => PReject RFile end.
 
